@@ -294,11 +294,13 @@ func (s *IndexedState) add(ctx *Context, id string, x Map) (string, error) {
 	// that is a rule, remove its pattern from the rule index;
 	// otherwise events matching the former pattern would still find
 	// this id (and fail if the id no longer holds a rule).
+	var replaced map[string]interface{}
 	if previous, have := s.IdToFact[id]; have {
 		if old, _ := ExtractRule(ctx, previous, false); old != nil {
 			if err = s.unindexRule(ctx, id, old); err != nil {
 				return "", err
 			}
+			replaced = old
 		}
 	}
 
@@ -307,6 +309,13 @@ func (s *IndexedState) add(ctx *Context, id string, x Map) (string, error) {
 		Log(DEBUG, ctx, "IndexedState.add", "state", s.Name, "rule", rule, "ruleId", id)
 		if _, scheduled := rule["schedule"]; !scheduled {
 			if err = s.indexRule(ctx, id, rule); err != nil {
+				if replaced != nil {
+					// The new rule is rejected, so the previous
+					// one stays: keep it findable.
+					if _, scheduled := replaced["schedule"]; !scheduled {
+						s.indexRule(ctx, id, replaced)
+					}
+				}
 				return "", err
 			}
 		}
